@@ -1960,6 +1960,7 @@ CONSTANTS
   DictDispatchByIsinstance = %s
   RendererRepaired = %s
 CONSTRAINT Constraint
+INVARIANT TwinsStoredApart
 ''' % ('TRUE' if by_isinstance else 'FALSE', 'TRUE' if repaired else 'FALSE'))
     res = require_ok(run_tlc('Codec', cfg, workers=8, timeout=3000), 'Codec.tla')
     report.add_tlc('Codec (all values of the grammar)', res.stats())
@@ -2066,6 +2067,29 @@ def c06(tier, replay=None):
                                 {'value': repr(val)[:300], 'v1_stored': o2})
         report.sample({'value': repr(value)[:120], 'position': pos, 'eq': last.get('eq'),
                        'diff_empty': last.get('diff_empty'), 'same_text': last.get('same_text')})
+    # one signature that holds a value AND its twin (True for 1, False for 0 ...), in both orders
+    twins = 0
+    for i, rec in enumerate(chosen):
+        v, tw = rec['val'], rec.get('twin')
+        pos = codec.position_of(v)
+        if tw is None or json_key(tw, 0) == json_key(v, 0) or pos not in ('condition', 'expression'):
+            continue
+        try:
+            value, twin = codec.concretise(v, {}), codec.concretise(tw, {})
+        except Exception:
+            continue
+        for via in ('direct', 'objects'):
+            for first, second in ((value, twin), (twin, value)):
+                obs = codec.pair_round_trip(first, second, pos, via, through_db=(twins % 5 == 0))
+                if obs is None:
+                    continue
+                twins += 1
+                report.coverage['traces_validated_against_impl'] += 1
+                if obs.get('error') or not obs.get('same_text'):
+                    report.fail({'class': 'value-read-back-as-its-twin', 'position': pos, 'built_from': via,
+                                 'value_type': v['t'], 'error': bool(obs.get('error'))},
+                                {'first': repr(first)[:200], 'second': repr(second)[:200], 'observed': obs})
+    report.coverage['twin_signatures'] = twins
     R.close_db()
     report.coverage['distinct_nontrivial'] = len(nontrivial)
     report.coverage['exhaustive'] = len(chosen) == len(recs)
@@ -2078,8 +2102,10 @@ def c06(tier, replay=None):
         'serialize()+json+deserialize() and through Version.save()/reload on SQLite, with a palette of '
         'strings (quotes, backslash, unicode, percent); %d of the signatures were built from real Django '
         'Index / CheckConstraint / UniqueConstraint objects through from_index / from_constraint (tuples as '
-        'Django deconstructs them). Non-trivial = structured values.'
-        % (len(recs), len(chosen), via_objects))
+        'Django deconstructs them). %d signatures held a value next to its twin (Codec!Twin: bools for 0/1 '
+        'and back - equal and equally hashed in Python, different as stored text) on two models, in both '
+        'orders, and had to re-serialise to the text they were stored as. Non-trivial = structured values.'
+        % (len(recs), len(chosen), via_objects, twins))
     report.assumptions += ['byte-level string escaping is exercised through the palette only']
     return report.finish()
 
